@@ -662,11 +662,12 @@ Proof.
       destruct (r_rest r); try discriminate. inversion H. right. rewrite andb_false_r. auto.
 Qed.
 
-Lemma load_rules_panic f proxy def rs : forall s,
-  load_rules f proxy def rs = Panic s ->
+Lemma load_rules_panic f proxy def rs : forall seen s,
+  load_rules f proxy def seen rs = Panic s ->
   confused f (forallb typed_rule rs) s \/ (s = SMech /\ forallb oracle_total_rule rs = false).
 Proof.
-  induction rs as [|r rest IH]; intros s; simpl; [discriminate|].
+  induction rs as [|r rest IH]; intros seen s; simpl; [discriminate|].
+  destruct (fxdup f && existsb (String.eqb (r_name r)) seen); [discriminate|].
   intros H. apply bind_panic in H. destruct H as [H|[u [_ H]]].
   - apply create_rule_panic in H. destruct H as [[F [T S]]|[S M]].
     + left. unfold confused. splits; auto. rewrite T. reflexivity.
@@ -690,7 +691,7 @@ Proof.
   unfold process, ev_typed, ev_oracle_total. destruct (ev_parse e) as [rs| |]; [|discriminate|].
   2:{ intros H. inversion H. right. auto. }
   destruct (negb (String.eqb (ev_version e) "1alpha4")); [discriminate|].
-  destruct (load_rules f proxy def rs) as [ids| |s'] eqn:L; try discriminate.
+  destruct (load_rules f proxy def [] rs) as [ids| |s'] eqn:L; try discriminate.
   - destruct (ev_repo_ok e); discriminate.
   - intros H. inversion H. subst. apply load_rules_panic in L. destruct L as [L|[L1 L2]]; auto.
 Qed.
@@ -707,14 +708,14 @@ Lemma process_exit_any_state f proxy def st st' e s :
 Proof.
   unfold process. destruct (ev_parse e) as [rs| |]; [|discriminate|auto].
   destruct (negb (String.eqb (ev_version e) "1alpha4")); [discriminate|].
-  destruct (load_rules f proxy def rs); try discriminate; [destruct (ev_repo_ok e); discriminate|auto].
+  destruct (load_rules f proxy def [] rs); try discriminate; [destruct (ev_repo_ok e); discriminate|auto].
 Qed.
 
 Lemma process_rejected f proxy def st e st' : process f proxy def st e = RsRejected st' -> st' = st.
 Proof.
   unfold process. destruct (ev_parse e) as [rs| |].
   - destruct (negb (String.eqb (ev_version e) "1alpha4")); [intros P; inversion P; reflexivity|].
-    destruct (load_rules f proxy def rs); try discriminate; [|intros P; inversion P; reflexivity].
+    destruct (load_rules f proxy def [] rs); try discriminate; [|intros P; inversion P; reflexivity].
     destruct (ev_repo_ok e); intros P; inversion P; reflexivity.
   - intros P; inversion P; reflexivity.
   - discriminate.
@@ -769,7 +770,7 @@ Definition ev_of (rs : list rule_def) : rs_event :=
 Theorem F3_refuted : exists e, guard_F3 no_fixes false false e = true /\ ev_oracle_total no_fixes e = true /\
   ~ spec_rs_ok ["old"%string] (process no_fixes false false ["old"%string] e).
 Proof.
-  exists (ev_of [{| r_id := "r"; r_exec := [{| s_map := [("authenticator"%string, YInt 42)]; s_mech := MOk; s_cel := false |}];
+  exists (ev_of [{| r_name := "r"; r_id := "r"; r_exec := [{| s_map := [("authenticator"%string, YInt 42)]; s_mech := MOk; s_cel := false |}];
                     r_eh := []; r_backend := false; r_rest := MOk |}]).
   vm_compute. splits; auto.
 Qed.
@@ -782,7 +783,7 @@ Proof.
 Qed.
 
 Example ruleset_nonvacuous :
-  let e := ev_of [{| r_id := "r";
+  let e := ev_of [{| r_name := "r"; r_id := "r";
                      r_exec := [{| s_map := [("authenticator", YStr "anon"); ("config", YMap [("subject", YStr "x")])]%string;
                                    s_mech := MOk; s_cel := false |};
                                 {| s_map := [("authorizer", YStr "cel"); ("if", YStr "true")]%string; s_mech := MOk; s_cel := true |}];
@@ -1389,7 +1390,7 @@ Qed.
 Theorem F10_truststore_refuted : exists f i l, fx7 f = true /\ fx10 f = false /\ ts_blocks i = [] /\ trust_store f true i = Ok l.
 Proof.
   exists {| fx1 := true; fx2 := true; fx3 := true; fx4 := true; fx5 := true; fx6 := true; fx7 := true; fx8 := true; fx9 := true;
-            fx10 := false; fx12 := true; fx13 := true; fx18 := true |}, {| ts_blocks := []; ts_trailing := false |}, [].
+            fx10 := false; fx12 := true; fx13 := true; fxdup := true; fx18 := true |}, {| ts_blocks := []; ts_trailing := false |}, [].
   splits; reflexivity.
 Qed.
 
@@ -1580,4 +1581,33 @@ Theorem F13_refuted : exists tries, guard_F13 no_fixes tries = true /\ update_st
 Proof.
   exists [{| t_parts := 2; t_patch := PatchStatusErr 409; t_get_ok := true |}; {| t_parts := 2; t_patch := PatchOtherErr; t_get_ok := false |}].
   split; reflexivity.
+Qed.
+
+(** a rule set in which a rule id occurs twice (and whose rules before the second occurrence can be
+    created) is a clean rejection on the tree as it is: nothing exits, the loaded rules stay *)
+Lemma load_rules_dup f proxy def r rs2 :
+  fxdup f = true -> forall rs1 seen,
+  (existsb (String.eqb (r_name r)) seen = true \/ existsb (String.eqb (r_name r)) (map r_name rs1) = true) ->
+  (forall x, In x rs1 -> create_rule f proxy def x = Ok tt) ->
+  load_rules f proxy def seen (rs1 ++ r :: rs2) = Err.
+Proof.
+  intros F. induction rs1 as [|x xs IH]; intros seen D C; simpl in *.
+  - destruct D as [D|D]; [|discriminate]. rewrite F, D. reflexivity.
+  - destruct (fxdup f && existsb (String.eqb (r_name x)) seen); [reflexivity|].
+    rewrite (C x (or_introl eq_refl)). simpl.
+    rewrite IH; [reflexivity| |intros y Hy; apply C; right; exact Hy].
+    simpl. destruct D as [D|D].
+    + left. rewrite D. apply orb_true_r.
+    + apply orb_true_iff in D. destruct D as [D|D]; [left; rewrite D; reflexivity|right; exact D].
+Qed.
+
+Theorem duplicate_id_rejected f proxy def st e rs1 r rs2 :
+  fxdup f = true -> ev_parse e = PParsed (rs1 ++ r :: rs2) ->
+  String.eqb (ev_version e) "1alpha4" = true ->
+  existsb (String.eqb (r_name r)) (map r_name rs1) = true ->
+  (forall x, In x rs1 -> create_rule f proxy def x = Ok tt) ->
+  process f proxy def st e = RsRejected st.
+Proof.
+  intros F P V D C. unfold process. rewrite P, V. simpl.
+  rewrite (load_rules_dup f proxy def r rs2 F rs1 []); auto.
 Qed.
